@@ -48,6 +48,22 @@ ORDER_RX = re.compile(
     r"\.(try_sync|sync|apply_reads_writes_if_needed|record_read_op|schedule_write_op)\s*\(")
 
 
+# Ordered fingerprint of the operations that matter to the concurrent cache's maintenance (kind
+# "op_order", files of the concurrent cache only): map accesses, the dirty/admitted flags, the
+# accounted weight, timestamps, the user's weigher, counter updates and deque operations, in
+# source order per function. The models transcribe these functions statement by statement and
+# treat each as atomic at a chosen granularity; under threads the ORDER of, say, "look the entry
+# up" and "clear the dirty flag" is behaviour, although no single-threaded run can tell.
+OP_ORDER_FILES = ("src/sync/base_cache.rs", "src/sync/cache.rs", "src/common/concurrent/housekeeper.rs")
+OP_ORDER_RX = re.compile(
+    r"\.(get|get_mut|insert|entry|remove|remove_if|and_modify|or_insert_with)\s*\(|"
+    r"\b(set_dirty|is_dirty|set_admitted|is_admitted|set_policy_weight|policy_weight|"
+    r"set_last_accessed|set_last_modified|last_accessed|last_modified|weigh|"
+    r"saturating_add|saturating_sub|push_back_ao|push_back_wo|move_to_back_ao|move_to_back_wo|"
+    r"unlink_ao|unlink_wo|handle_remove|handle_remove_with_deques|handle_admit|try_send|try_recv|"
+    r"compare_exchange|store|load)\s*\(")
+
+
 def strip_guarded(text):
     """Removes items under #[cfg(test)] / #[cfg(mini_moka_verif)] (brace matched) and comments."""
     out, i, n = [], 0, len(text)
@@ -105,6 +121,11 @@ def inventory():
                 tok = next(g for g in m.groups() if g)
                 key = f"{rel}|{fn}|lock_order"
                 inv[key] = (inv[key] + ">" if key in inv else "") + tok
+            if rel in OP_ORDER_FILES:
+                for m in OP_ORDER_RX.finditer(line):
+                    tok = next(g for g in m.groups() if g)
+                    key = f"{rel}|{fn}|op_order"
+                    inv[key] = (inv[key] + ">" if key in inv else "") + tok
     return inv
 
 
@@ -126,7 +147,7 @@ def main():
             continue
         a, b = base.get(key, 0), inv.get(key, 0)
         if a != b:
-            what = "sequence" if kind == "lock_order" else "site(s)"
+            what = "sequence" if kind in ("lock_order", "op_order") else "site(s)"
             problems.append(f"{key}: model was written against {a} {what}, source now has {b}")
     print(json.dumps({"ok": not problems, "problems": problems, "sites": len(inv)}))
     return 0
